@@ -33,6 +33,10 @@ def kind_of(callee):
     if callee.startswith("core::sync::atomic::") and l in ("store", "swap", "fetch_add", "fetch_sub", "compare_exchange",
                                                             "fetch_max", "fetch_min"):
         return "ATOMIC"
+    if callee.startswith("std::sync::") and l in ("write", "lock", "try_write", "try_lock", "get_mut", "set", "replace"):
+        return "SHARED-MUT"
+    if callee.startswith("core::cell::") and l in ("borrow_mut", "set", "replace", "swap", "take", "get_mut", "try_borrow_mut"):
+        return "SHARED-MUT"
     if callee.startswith("libc::") or callee.startswith("std::process::") or callee.startswith("std::env::set"):
         return "OS"
     return None
